@@ -36,10 +36,15 @@ def relevant(fn):
     return fn.startswith(_REPO_PKG) or fn == _SITE
 
 
-def solo(kind, n, debug, cache):
-    key = (kind, n, debug)
+def _cfg(debug, custom):
+    # custom: an errors_map the user configured (texts that need escaping, objects shared by every request of the application)
+    return dict({'debug': debug}, **({'errors_map': S.custom_errors()} if custom else {}))
+
+
+def solo(kind, n, debug, cache, custom=False):
+    key = (kind, n, debug, custom)
     if key not in cache:
-        app = S.make_app(config={'debug': debug}, private_errors=True)
+        app = S.make_app(config=_cfg(debug, custom), private_errors=not custom)
         r = call_app(app, S.make_env(kind, n))
         if r.escaped is not None:
             raise CheckFailure(f'solo request {key} raised {fmt_exc(r.escaped)}')
@@ -53,7 +58,8 @@ _SOLO = {}
 def run_case(ctx, case, count_only=False):
     reqs = [tuple(r) for r in case['reqs']]
     debug = bool(case.get('debug'))
-    refs = [solo(k, n, debug, _SOLO) for k, n in reqs]
+    custom = bool(case.get('custom'))
+    refs = [solo(k, n, debug, _SOLO, custom) for k, n in reqs]
     envs = {}
     problems = []
     inflight = {}
@@ -82,7 +88,7 @@ def run_case(ctx, case, count_only=False):
             if want and rq.get_cookie('seen') != want.split('=', 1)[1]:
                 problems.append(f'ok:end: request cookie seen={rq.get_cookie("seen")!r}, own Cookie header {want!r}')
 
-    app = S.make_app(probe=probe, config={'debug': debug}, private_errors=True)
+    app = S.make_app(probe=probe, config=_cfg(debug, custom), private_errors=not custom)
     for wk, wn in case.get('warm') or ():
         call_app(app, S.make_env(wk, wn))
 
@@ -146,7 +152,7 @@ PAIRS = [('ok', 'ok'), ('ok', 'crash'), ('badjson', 'badjson'), ('form', 'ok'), 
          ('expires', 'resp_copy'), ('sess_mutate', 'sess_mutate'), ('form_fixed', 'form'), ('qs_reassign', 'qs_reassign'), ('urlinfo', 'ok'), ('ok', 'urlinfo'), ('api_404', 'notfound'),
          ('notfound', 'api_404'), ('api_item', 'urlinfo'), ('neg_cl', 'ok'), ('urlbuild', 'urlbuild'), ('urlbuild', 'typed'), ('ok', 'manyheaders'), ('manyheaders', 'ok'), ('auth', 'manyheaders'),
          ('manyheaders', 'manyheaders'), ('emptyform', 'emptybody'), ('emptybody', 'emptyform'), ('emptyform', 'emptyform'), ('emptyform', 'ok'), ('upload_headers', 'upload_headers'),
-         ('upload_headers', 'form')]
+         ('upload_headers', 'form'), ('hdr_types', 'hdr_types'), ('hdr_types', 'ok'), ('notmod_noetag', 'notmodified'), ('badstart', 'badstart'), ('badstart', 'form')]
 
 def _reqs():
     anyk = st.lists(st.tuples(st.sampled_from(S.KINDS), st.integers(0, 30)).map(list), min_size=2, max_size=3)
@@ -155,6 +161,7 @@ def _reqs():
     return st.one_of(anyk, same)
 
 
+PAIRS_CUSTOM = [('badjson', 'badjson'), ('badmultipart', 'badjson'), ('oversized', 'oversized'), ('badchunk', 'badjson'), ('badjson', 'badchunk'), ('bigform', 'oversized')]
 WARM1 = [('ok', 'manyheaders'), ('auth', 'manyheaders'), ('urlinfo', 'manyheaders'), ('manyheaders', 'manyheaders'), ('longquery', 'manyheaders')]
 PAIRS2 = [('form_fixed', 'form_fixed'), ('chunked_ok', 'chunked_ok'), ('rex', 'rex'), ('expires', 'expires'), ('qs_reassign', 'qs_reassign')]
 # scenario pairs served after a warm-up of w sequential requests of the first kind (what earlier traffic taught the application must not matter)
@@ -189,6 +196,15 @@ def run(ctx):
                 ctx.guarded(check_case, dict(base, schedule=[[0, k], [1, BIG], [0, BIG]]))
             ctx.count('bound1_scenarios')
             ctx.count('bound1_schedules', ya // stride + 1)
+    # error kinds on an application with a configured errors_map (HTML page on one thread, JSON document on the other, and the reverse)
+    for pi, (a, b) in enumerate(PAIRS_CUSTOM):
+        if pi % max(1, ctx.nshards) != ctx.shard % max(1, ctx.nshards):
+            continue
+        base = {'reqs': [[a, 2], [b, 1]], 'debug': False, 'custom': True}
+        ya = run_case(ctx, dict(base, schedule=[[0, BIG]]), count_only=True)[0]
+        for k in range(0, ya + 1):
+            ctx.guarded(check_case, dict(base, schedule=[[0, k], [1, BIG], [0, BIG]]))
+        ctx.count('configured_errors_map_scenarios')
     # the same after a warm-up: w sequential requests of kind a, then b is pre-empted at every step while a runs to completion (and the reverse)
     for pi, (a, b) in enumerate(WARM):
         if pi % max(1, ctx.nshards) != ctx.shard % max(1, ctx.nshards):
